@@ -94,7 +94,21 @@ func EvalText(text string, data map[string]interface{}) EvalOut {
 	if data != nil {
 		r.SetThis(data)
 	}
-	return Eval(r, context.Background(), p.Src.Expression)
+	out := Eval(r, context.Background(), p.Src.Expression)
+	if !strings.Contains(text, "$") && !strings.Contains(text, "now") && !strings.Contains(text, "toDay") {
+		// Evaluation must leave the tree unchanged: the same parsed tree,
+		// evaluated once more in a fresh runner with the same data (no locals
+		// were written, the text has no '$'), has to give the same outcome.
+		r2 := formula.NewRunner()
+		if data != nil {
+			r2.SetThis(data)
+		}
+		out2 := Eval(r2, context.Background(), p.Src.Expression)
+		if a, b := out.String(), out2.String(); a != b {
+			return EvalOut{Panic: fmt.Sprintf("the second evaluation of the same parsed tree of %q gave %s, the first gave %s", text, b, a)}
+		}
+	}
+	return out
 }
 
 // WithTimeout runs f and reports false if it did not finish within d of
